@@ -109,7 +109,39 @@ def _f_max2(a, b):
     return np.maximum(a, b) + 0.5
 
 
+# Elementwise functions that REQUIRE all inputs to have the same shape (no reliance on numpy broadcasting inside the
+# function): the statement promises the expression "whatever the broadcasting structure of the inputs", so glue has to
+# hand over inputs of one common shape.
+def _f_zip2(a, b):
+    assert a.shape == b.shape, (a.shape, b.shape)
+    return np.array([x + 2 * y for x, y in zip(a.ravel(), b.ravel())], dtype=float).reshape(a.shape)
+
+
+def _f_fromiter2(a, b):
+    if a.size != b.size:
+        raise ValueError("inputs of different size: %r %r" % (a.shape, b.shape))
+    return np.fromiter((x * y for x, y in zip(a.flat, b.flat)), dtype=float, count=a.size).reshape(a.shape)
+
+
+def _f_emptylike3(a, b, c):
+    out = np.empty_like(a, dtype=float)
+    for idx in np.ndindex(a.shape):
+        out[idx] = float(a[idx]) - float(b[idx]) + float(c[idx])
+    return out
+
+
+def _f_assert2(a, b):
+    assert a.shape == b.shape, (a.shape, b.shape)
+    return a - b * 0.5
+
+
+STRICT_FUNCS = ["zip2", "fromiter2", "emptylike3", "assert2"]
+
 FUNCS = {  # name -> (arity, function handed to glue, clean elementwise reference)
+    "zip2": (2, _f_zip2, lambda a, b: (a + 2 * b) * 1.0),
+    "fromiter2": (2, _f_fromiter2, lambda a, b: (a * b) * 1.0),
+    "emptylike3": (3, _f_emptylike3, lambda a, b, c: a * 1.0 - b * 1.0 + c * 1.0),
+    "assert2": (2, _f_assert2, lambda a, b: a - b * 0.5),
     "lin1": (1, _f_lin1, lambda a: a * 2 + 1),
     "mul2": (2, _f_mul2, lambda a, b: a * b - 1),
     "where3": (3, _f_where3, lambda a, b, c: np.where(a > b, c, a - b)),
@@ -783,6 +815,20 @@ def run_expr(ctx, case):
             name = rng.choice(sorted(FUNCS) + ["ident"])
             if name == "ident":
                 desc = ["ident", rng.choice(pool)]
+            elif name in STRICT_FUNCS:
+                # inputs of different broadcasting structure: pixel / world attributes (of different axes where the
+                # dataset has several), a stored attribute, sometimes a derived one
+                ins = rng.sample(bro, min(len(bro), rng.randint(1, 2)))
+                sto = [n for n in pool if model.nodes[n].kind.startswith("stored")]
+                while len(ins) < FUNCS[name][0]:
+                    ins.append(rng.choice(sto if rng.random() < 0.7 else pool))
+                rng.shuffle(ins)
+                desc = ["fn", name, ins[:FUNCS[name][0]]]
+                structs = {(model.nodes[n].kind, n) if model.nodes[n].kind in ("pixel", "world") else ("full", "")
+                           for n in desc[2]}
+                ctx.count("strict_shape_function_added")
+                if len(structs) > 1:
+                    ctx.count("strict_shape_function_with_inputs_of_different_broadcast_structure")
             else:
                 desc = ["fn", name, [rng.choice(pool) for _ in range(FUNCS[name][0])]]
             lk = "function"
@@ -1142,7 +1188,8 @@ def run_hist(ctx, case):
                         [rng.choice(["*", "+", "-"]), ["c", rng.choice([2, 0.5, 3])], t]
                 desc = t
             elif q < 0.8:
-                name = {1: "lin1", 2: rng.choice(["mul2", "ravel2", "max2"]), 3: "where3"}[k]
+                name = {1: "lin1", 2: rng.choice(["mul2", "ravel2", "max2", "zip2", "fromiter2", "assert2"]),
+                        3: rng.choice(["where3", "emptylike3"])}[k]
                 desc = ["fn", name, ins]
             else:
                 t = ["in", ins[0]]
@@ -1231,10 +1278,16 @@ def run_hist(ctx, case):
             # ---- update_id
             cand = removable
             nodep = [n for n in cand if len(model.closure(n)) == 1]
-            if nodep and rng.random() < 0.4:
+            with_parsed = [n for n in cand if any(model.nodes[c].desc is not None and model.nodes[c].desc[0] == "parsed"
+                                                   and n in leaves(model.nodes[c].desc) for c in model.closure(n) if c != n)]
+            q0 = rng.random()
+            if with_parsed and q0 < 0.4:
+                target = rng.choice(with_parsed)       # an input of a parsed command
+            elif nodep and q0 < 0.65:
                 target = rng.choice(nodep)
             else:
                 target = rng.choice(cand)
+            parsed_dep = target in with_parsed
             has_dep = len(model.closure(target)) > 1
             node = model.nodes[target]
             counter += 1
@@ -1263,6 +1316,26 @@ def run_hist(ctx, case):
             node.renamed_with_dependants = node.renamed_with_dependants or has_dep
             node.cid = new
             node.label = newlabel
+            twice = rng.random() < 0.4
+            if twice:
+                # the same attribute is renamed again straight away: x -> x_0 -> x_1, nothing read in between
+                counter += 1
+                newlabel = newlabel + "_t%d" % counter
+                new2 = ComponentID(newlabel, parent=d)
+                node.old_cids.append(node.cid)
+                hist.append(["update_id", node.label, newlabel, "second_in_a_row"])
+                try:
+                    d.update_id(node.cid, new2)
+                except Exception as e:   # noqa
+                    fail("update_id_failed", {"how": "exception:" + exc_name(e), "second_in_a_row": True}, {"error": repr(e)[:300]})
+                    return
+                node.cid = new2
+                node.label = newlabel
+                ctx.count("hist_update_id_twice_in_a_row")
+                if parsed_dep:
+                    ctx.count("hist_update_id_twice_in_a_row_on_input_of_parsed_command")
+            if parsed_dep:
+                ctx.count("hist_update_id_on_input_of_parsed_command")
             ctx.count("hist_update_id")
             ctx.count("hist_update_id_" + ("with_dependants" if has_dep else "without_dependants"))
             # order and the renamed attribute itself
@@ -1293,7 +1366,7 @@ def run_hist(ctx, case):
                     ctx.count("dependant_read_after_update_id")
                 if how:
                     broken = True
-                    fail("value_changed_by_update_id", {"how": how, "renamed_kind": renamed_kind,
+                    fail("value_changed_by_update_id", {"how": how, "renamed_kind": renamed_kind, "twice_in_a_row": twice,
                                                         "attr_is_dependant_of_renamed": is_dependant,
                                                         "attr_is_renamed": n == target,
                                                         "dependant_link_kind": {"fn": "function", "ident": "function",
@@ -1334,7 +1407,9 @@ def floors(counters, tier):
                  "shape_class:large": 5, "shape_class:zero_size": 4, "shape_class:single_element": 5, "dask_backed_input": 8,
                  "value_compared_through_subset": 40, "hist_replace_values_with_dependants": 20, "hist_remove_twice": 50,
                  "hist_update_id_variant:back_to_previous_id": 10, "hist_update_id_variant:label_equal_to_another_attribute": 50,
-                 "histories_with_reading_listener": 30, "hist_readd_removed_label": 20, "hist_remove_everything_stored": 15})
+                 "histories_with_reading_listener": 30, "hist_update_id_twice_in_a_row": 100,
+                 "hist_update_id_twice_in_a_row_on_input_of_parsed_command": 15, "strict_shape_function_added": 100,
+                 "strict_shape_function_with_inputs_of_different_broadcast_structure": 60, "hist_readd_removed_label": 20, "hist_remove_everything_stored": 15})
     for lay in LAYOUTS:
         need["stored_layout:" + lay] = 50
     for fk in ("read_bad_view", "link_foreign_input", "read_unknown_label", "update_id_foreign", "remove_foreign",
